@@ -78,13 +78,15 @@ INIT = {'g_int': 11, 'g_ll': -5000000000, 'g_dbl': 1.5, 'g_f': 0.25, 'g_ch': b'c
 
 def generate(ctx):
     rng = ctx.rng('gen')
-    n = ctx.scale(600, 10000)
+    n = ctx.scale(400, 10000)
     seeds = [rng.getrandbits(40) for _ in range(n)]
     return make_setup(ctx), [make_case(ctx, seeds[i:i + PER], i // PER) for i in range(0, n, PER)]
 
 
 def make_setup(ctx):
-    return {'so': cc.build_so(ctx.tmp, CSRC, 'c37_lib.so')}
+    # -Bsymbolic: each copy's own references stay inside the copy although a decoy copy
+    # with the same symbol names is loaded RTLD_GLOBAL (see child_setup)
+    return {'so': cc.build_so(ctx.tmp, CSRC, 'c37_lib.so', flags=['-Wl,-Bsymbolic'])}
 
 
 def make_case(ctx, seeds, no):
@@ -103,8 +105,13 @@ def child_setup(setup, wd):
     ffib.cdef(CDEF)
     ffib.set_source('_c37_ool', None)
     ffib.emit_python_code(os.path.join(wd, '_c37_ool.py'))
-    return {'wd': wd, 'so': setup['so'], 'ool': importlib.import_module('_c37_ool').ffi,
-            'inline': None, 'n': 0}
+    ool = importlib.import_module('_c37_ool').ffi
+    # a never-closed RTLD_GLOBAL copy: an access that goes on with a NULL handle after the
+    # close (dlsym(NULL) = global lookup) finds these symbols and returns instead of failing
+    decoy = os.path.join(wd, 'c37_decoy.so')
+    shutil.copyfile(setup['so'], decoy)
+    return {'wd': wd, 'so': setup['so'], 'ool': ool, 'inline': None, 'n': 0,
+            'decoy': ool.dlopen(decoy, ool.RTLD_GLOBAL | ool.RTLD_NOW)}
 
 
 def rand_value(rnd, name):
